@@ -1,12 +1,6 @@
-CONSTANTS
-  N <- MC_N
-  K <- MC_K
-  M <- MC_M
-  Anchors <- MC_Anchors
-  Out <- MC_Out
 INIT Init
 NEXT Next
 INVARIANT TypeOK
-INVARIANT DetNoDiv
+INVARIANT SameUntilDiverged
 INVARIANT NoEDA
 CHECK_DEADLOCK FALSE
